@@ -31,3 +31,26 @@ Print Assumptions C09_chunking_irrelevant.
 (* non-vacuity: two different chunkings of one stream *)
 Example two_chunkings : concat [bs "{1500}30"; bs "User ReqT "] = concat [bs "{15"; bs "00}30User"; bs " ReqT "].
 Proof. reflexivity. Qed.
+
+(* separators: a text of well-formed segments (each starts with a marker, holds no other '{' and no line
+   break - what the writer emits for FAIM values) joined by nothing, LF or CRLF is cut into exactly those
+   segments, so the read depends on the segments alone: not on the separator, not on the chunking *)
+From Wire Require Import Theory.Segments.
+
+Theorem C09_read_depends_on_segments_only : forall preset opts sep lines chunks final,
+  sep_ok sep -> forallb seg_ok lines = true -> length (text_of sep lines) < max_token ->
+  concat chunks = text_of sep lines ->
+  read_model preset opts chunks final = read_segments preset opts lines final.
+Proof. exact read_of_segments. Qed.
+Print Assumptions C09_read_depends_on_segments_only.
+
+Theorem C09_separator_irrelevant : forall preset opts lines sep1 sep2 chunks1 chunks2 final,
+  sep_ok sep1 -> sep_ok sep2 -> forallb seg_ok lines = true ->
+  length (text_of sep1 lines) < max_token -> length (text_of sep2 lines) < max_token ->
+  concat chunks1 = text_of sep1 lines -> concat chunks2 = text_of sep2 lines ->
+  read_model preset opts chunks1 final = read_model preset opts chunks2 final.
+Proof. exact separator_irrelevant. Qed.
+Print Assumptions C09_separator_irrelevant.
+
+Example a_well_formed_segment : seg_ok (bs "{1510}1000") = true /\ sep_ok [x0d; x0a].
+Proof. split; [reflexivity|right; right; reflexivity]. Qed.
